@@ -11,7 +11,7 @@ import (
 func init() {
 	register(&Prop{
 		ID:         "C14",
-		Decided:    "(1) evaluation order relative to WHERE in the function both API paths share: with a WHERE free of analytic calls the predicate is evaluated first and a rejected row never reaches the analytic engine (state not advanced); with analytic calls in WHERE the engine runs before the predicate; (2) the partition key encoder is typed and length-prefixed (uniquely decodable, NULL distinct), and the PARTITION BY value is resolved by exact name, then as a path, the bare-suffix heuristic only as a fallback; (3) WHEN gating: on the false edge of the WHEN predicate no state is looked up or advanced; (4) LRU eviction is reachable only when the number of live partitions exceeds the cap, and it removes the oldest entry together with its last result; (5) every AnalyticState implementation: NewState returns a new object sharing no reference-typed state with the prototype, Apply writes only its receiver; (6) partitions/lru/lastResults/noPart/wrapperParsed are accessed only under fe.mu. Also: analytic placeholder columns are written only into a map created by the writing function (never into a row other fields of the same event read).",
+		Decided:    "(1) evaluation order relative to WHERE in the function both API paths share: with a WHERE free of analytic calls the predicate is evaluated first and a rejected row never reaches the analytic engine (state not advanced); with analytic calls in WHERE the engine runs before the predicate; (2) the partition key encoder is typed and length-prefixed (uniquely decodable, NULL distinct), and the PARTITION BY value is resolved by exact name, then as a path, the bare-suffix heuristic only as a fallback; (3) WHEN gating: on the false edge of the WHEN predicate no state is looked up or advanced; (4) LRU eviction is reachable only when the number of live partitions exceeds the cap, and it removes the oldest entry together with its last result; (5) every AnalyticState implementation: NewState returns a new object sharing no reference-typed state with the prototype, Apply writes only its receiver; (6) partitions/lru/lastResults/noPart/wrapperParsed are accessed only under fe.mu. Also: analytic placeholder columns are written only into a map created by the writing function (never into a row other fields of the same event read). Also: in every analytic state machine's Apply, with all optional arguments present, every path to a return evaluates each boolean condition argument (acc_xxx start/reset, ignoreNull) or leaves through the branch on which an earlier condition argument held (flow/condition-args-every-row): a NULL main value cannot skip a start/reset.",
 		NotDecided: "each function's definition (offsets, defaults, NULL skipping, start/reset arguments), wrapper-expression values, behaviour above the partition cap beyond 'the oldest goes'.",
 		Run:        runC14,
 	})
